@@ -93,6 +93,18 @@ def check_module(ctx: Ctx, defn: dict, mod: S.XModule, seed: int, n_trees: int) 
         return
     ctx.stats["modules"] += 1
     got_classes = {c.__name__: c for c in D.module_classes(modname)}
+    # "one class per structure": the module SOURCE must not define a class twice either (Python silently rebinds the name,
+    # so the module namespace alone cannot show it)
+    try:
+        import ast
+        import collections
+
+        tree = ast.parse(open(pymod.__file__).read())
+        dup = [n for n, k in collections.Counter(x.name for x in tree.body if isinstance(x, ast.ClassDef)).items() if k > 1]
+        if dup:
+            ctx.fail("class-defined-twice", f"{modname}: the generated source defines {sorted(dup)} more than once", defname)
+    except (OSError, SyntaxError):
+        pass
     if set(got_classes) != set(mod.classes):
         ctx.fail("class-set", f"{modname}: generated classes {sorted(got_classes)}, definition implies {sorted(mod.classes)}", defname)
     for name, xc in mod.classes.items():
